@@ -31,7 +31,7 @@ pub const DEF: CheckDef = CheckDef {
     id: "C15",
     run,
     technique: "bounded-exhaustive enumeration of statement records (field alphabets, all records with <= d non-plain fields) for the CSV, Camt053 and Viseca importers; differential oracle: importer-built syntax tree versus okane's own parser applied to the text printed by the real ImportCmd::run; violating cases are reduced to their smallest violating sub-set of non-plain fields, which names the signature",
-    rule: "case = (shape, precision, record). 15 shapes: csv-basic (index columns, liability, code+payee split by a rewrite rule, note, commodity column, balance), csv-credit-debit (label columns, tab delimiter, a 50-column account name so that the amount column overflows), csv-multi (rate, secondary amount/commodity, charge, conversion mode), csv-template (payee = '{category} - {note}', new_to_old), camt-<source> for the 7 text elements a rewrite rule can copy into the payee (creditor, debtor, ultimate creditor/debtor name, remittance info, additional transaction/entry info) each with AcctSvcrRef as code and booking date != value date, camt-entry-only (no TxDtls), camt-numeric (amounts, currency, TxAmt+CcyXchg, charges, opening/closing balance), viseca-basic, viseca-fx. Text alphabet (21): plain, semicolon, lparen, rparen, star, bang, digit-date, double-space, tab, leading-blank, trailing-blank, newline, newline-indent (an indented posting line), newline-date (a dated header line), cr, word-tag, key-value, cjk, empty, equals-at, long. Numeric alphabet: plain, 1,234.50, -0.5, CHF 12.00, $1.46, .02, 0, 12.345, and absent/present for optional columns (Viseca: plain, 1'234.50, .02, 0, 5, 1.2.3, 12.345). Commodity alphabet: plain, empty, $, 'US D', BRK.B, 'A;B'. Every statement carries the tested record followed by one plain anchor record. Precision of CHF/USD/EUR/VYM in {none,2,4}. ALL records with <= 2 (quick) / <= 3 (thorough) non-plain fields. states = statements imported (incl. minimisation re-runs), transitions = transactions compared field by field",
+    rule: "case = (shape, precision, record). 15 shapes: csv-basic (index columns, liability, code+payee split by a rewrite rule, note, commodity column, balance), csv-credit-debit (label columns, tab delimiter, a 50-column account name so that the amount column overflows), csv-multi (rate, secondary amount/commodity, charge, conversion mode), csv-template (payee = '{category} - {note}', new_to_old), camt-<source> for the 7 text elements a rewrite rule can copy into the payee (creditor, debtor, ultimate creditor/debtor name, remittance info, additional transaction/entry info) each with AcctSvcrRef as code and booking date != value date, camt-entry-only (no TxDtls), camt-numeric (amounts, currency, TxAmt+CcyXchg, charges, opening/closing balance), viseca-basic, viseca-fx. Text alphabet (21): plain, semicolon, lparen, rparen, star, bang, digit-date, double-space, tab, leading-blank, trailing-blank, newline, newline-indent (an indented posting line), newline-date (a dated header line), cr, word-tag, key-value, cjk, empty, equals-at, long. Numeric alphabet: plain, 1,234.50, -0.5, CHF 12.00, $1.46, .02, 0, 12.345, and absent/present for optional columns (Viseca: plain, 1'234.50, .02, 0, 5, 1.2.3, 12.345). Commodity alphabet: plain, empty, $, 'US D', BRK.B, 'A;B'. Every statement carries the tested record followed by one plain anchor record. Precision of CHF/USD/EUR/VYM in {none,2,4}. ALL records with <= 2 (quick) / <= 3 (thorough) non-plain fields. Plus the layout-boundary family: for one CSV, one Camt053 and one Viseca shape the configured account and the rewrite (counter) account (cleared and pending) take every display width 1..=64 (ASCII; CSV also names with wide CJK characters; thorough: full 64x64 product for CSV) x 4-5 amount spellings of different printed widths and both signs x precision {none,2,4} x with/without running balance. states = statements imported (incl. minimisation re-runs), transitions = transactions compared field by field",
     assumptions: &[
         "the tree is built in the harness by the same public calls as ImportCmd::run (load_from_yaml, ConfigSet::select, import::import, Txn::to_double_entry) on the same scratch files, reading the file as UTF-8 bytes without encoding_rs_io (identical for the BOM-less UTF-8 statements generated here)",
         "text that the importer trims / splits / rejects before building the tree is not judged (tree vs re-read text only); records the importer rejects are DON'T-CARE",
@@ -656,10 +656,15 @@ fn judge(env: &Env, si: usize, pi: usize, devs: &Devs) -> Judgement {
 }
 
 fn judge_uncached(env: &Env, si: usize, pi: usize, devs: &Devs) -> Judgement {
-    *env.runs.borrow_mut() += 1;
     let shape = &env.shapes[si];
     let prec = PRECS[pi];
     let r = render(shape, prec, &values(shape, devs));
+    judge_rendered(env, &r, prec)
+}
+
+/// Runs the real command and the real library calls on one rendered (config, statement) pair and compares.
+fn judge_rendered(env: &Env, r: &Rendered, prec: Option<u8>) -> Judgement {
+    *env.runs.borrow_mut() += 1;
     let cfg_path = env.dir.join("config.yml");
     let src_path = env.dir.join(format!("statement.{}", r.ext));
     if *env.last_config.borrow() != r.config {
@@ -967,6 +972,205 @@ fn for_each_dev(sizes: &[usize], k: usize, f: &mut dyn FnMut(&Devs)) {
     rec(sizes, 0, k, &mut cur, f);
 }
 
+
+// ------------------------------------------------------------------------------------------------
+// Layout-boundary family: the amount column.
+//
+// The printer puts the number so that it ends at column 48 and guarantees two blanks after the account;
+// whether that guarantee holds depends on (display width of the posting's account incl. a `! ` marker) +
+// (width of the printed number, after padding to the configured precision). This family sweeps the display
+// width of the configured (source) account and of the rewrite (counter) account over EVERY width 1..=64,
+// with ASCII names and with names that start with wide CJK characters, x amount spellings of different
+// printed widths x precision x with/without running balance, for one CSV, one Camt053 and one Viseca shape.
+// The oracle is the same round trip (tree vs re-read text), so no width function is needed in the harness.
+
+const LAYOUT_MAX_WIDTH: usize = 64;
+const SRC_TEMPLATE: &str = "Assets:Bank:Okane:Savings:Joint:Household:Reserve:Emergency:Longterm:Fund";
+const DST_TEMPLATE: &str = "Expenses:Household:Utilities:Electricity:Region:North:Plant:Unit:Seven";
+/// display width 10 (4 wide characters + 2 colons)
+const CJK_PREFIX: &str = "資産:銀行:";
+const CJK_PREFIX_WIDTH: usize = 10;
+const DEFAULT_SRC: &str = "Assets:Okane Bank";
+const DEFAULT_DST: &str = "Expenses:Utilities";
+
+const LAYOUT_CSV_AMOUNTS: &[&str] = &["5", "12.5", "1234.5", "-1234.5", "1,234,567.89"];
+const LAYOUT_XML_AMOUNTS: &[&str] = &["5", "12.5", "1234.5", "1234567.89"];
+const LAYOUT_VISECA_AMOUNTS: &[&str] = &["5.00", "12.5", "1'234.50", "1'234'567.89"];
+
+/// ASCII account name of exactly `w` columns (no blanks; never ends with a blank).
+fn ascii_account(template: &str, w: usize) -> String {
+    assert!(w >= 1 && w <= template.len(), "harness bug: layout width out of range");
+    template[..w].to_string()
+}
+/// account name of display width `w` (>= CJK_PREFIX_WIDTH + 1) starting with wide characters
+fn cjk_account(template: &str, w: usize) -> String {
+    assert!(w > CJK_PREFIX_WIDTH, "harness bug: layout width too small for the CJK prefix");
+    format!("{}{}", CJK_PREFIX, &template[..w - CJK_PREFIX_WIDTH])
+}
+
+#[derive(Clone, Debug)]
+struct LayoutCase {
+    importer: &'static str,
+    /// which account is swept: "source-account", "counter-account", "counter-account-pending", "both-accounts"
+    swept: &'static str,
+    cjk: bool,
+    src: String,
+    dst: String,
+    pending: bool,
+    amount: &'static str,
+    /// camt: debit / viseca: refund
+    flip: bool,
+    pi: usize,
+    balance: bool,
+}
+
+fn layout_render(c: &LayoutCase) -> Rendered {
+    let prec = PRECS[c.pi];
+    let pending = if c.pending { "    pending: true\n" } else { "" };
+    match c.importer {
+        "csv" => {
+            let config = format!(
+                "path: \".csv\"\nencoding: UTF-8\naccount: \"{}\"\naccount_type: asset\ncommodity: CHF\nformat:\n  date: \"%Y-%m-%d\"\n  fields:\n    date: 1\n    payee: 2\n    amount: 3\n    balance: 4\n{}rewrite:\n  - matcher:\n      payee: City Power\n    account: \"{}\"\n{}",
+                c.src,
+                yaml_precisions(prec),
+                c.dst,
+                pending
+            );
+            let mut st = csv_row(&["date", "payee", "amount", "balance"], ',');
+            st.push_str(&csv_row(&["2024-03-01", "City Power", c.amount, if c.balance { "100" } else { "" }], ','));
+            st.push_str(&csv_row(&["2024-03-02", "Migros Grocery", "-20.5", ""], ','));
+            Rendered { config, statement: st, ext: "csv", records: 2 }
+        }
+        "xml" => {
+            let config = format!(
+                "path: \".xml\"\nencoding: UTF-8\naccount: \"{}\"\naccount_type: asset\noperator: Okane Bank (fee)\ncommodity: CHF\n{}rewrite:\n  - matcher:\n      creditor_name: '(?s)^(?P<payee>.*)$'\n  - matcher:\n      payee: City Power\n    account: \"{}\"\n{}",
+                c.src,
+                if prec.is_some() { format!("format:\n{}", yaml_precisions(prec)) } else { String::new() },
+                c.dst,
+                pending
+            );
+            let mut e = CamtEntry::plain();
+            e.cdtr = Some("City Power");
+            e.amt = c.amount;
+            e.debit = c.flip;
+            let closing = if c.balance { Some("74.5") } else { None };
+            let records = 3;
+            Rendered { config, statement: camt_doc(&[e, CamtEntry::anchor(0)], Some("100"), closing), ext: "xml", records }
+        }
+        _ => {
+            let config = format!(
+                "path: \".txt\"\nencoding: UTF-8\naccount: \"{}\"\naccount_type: liability\noperator: Okane Card (fee)\ncommodity: CHF\n{}rewrite:\n  - account: \"{}\"\n{}    matcher:\n    - category: Utilities\n",
+                c.src,
+                if prec.is_some() { format!("format:\n{}", yaml_precisions(prec)) } else { String::new() },
+                c.dst,
+                pending
+            );
+            let st = format!("04.01.24 05.01.24 City Power {}{}\nUtilities\n10.01.24 11.01.24 Migros Grocery 20.50\nGrocery stores\n", c.amount, if c.flip { " -" } else { "" });
+            Rendered { config, statement: st, ext: "txt", records: 2 }
+        }
+    }
+}
+
+/// display width used in descriptions only (the oracle never needs it): wide CJK characters count 2
+fn nominal_width(s: &str) -> usize {
+    s.chars().map(|ch| if (ch as u32) >= 0x2E80 { 2 } else { 1 }).sum()
+}
+
+fn layout_describe(c: &LayoutCase) -> String {
+    let r = layout_render(c);
+    format!(
+        "layout-boundary family: importer {} sweeps {}{} (source account {} columns, counter account {} columns{}), amount {:?}{}, precision {:?}, balance {}\n--- config ---\n{}--- statement (.{}) ---\n{}",
+        c.importer,
+        c.swept,
+        if c.cjk { " with wide CJK characters" } else { "" },
+        nominal_width(&c.src),
+        nominal_width(&c.dst),
+        if c.pending { " + pending marker" } else { "" },
+        c.amount,
+        if c.flip { " (debit / refund)" } else { "" },
+        PRECS[c.pi],
+        c.balance,
+        r.config,
+        r.ext,
+        r.statement
+    )
+}
+
+fn layout_outcome(env: &Env, c: &LayoutCase) -> Outcome {
+    let r = layout_render(c);
+    let j = match crate::fw::guarded(|| judge_rendered(env, &r, PRECS[c.pi])) {
+        Ok(j) => j,
+        Err(sig) if sig.contains("harness bug") => panic!("{}", sig),
+        Err(sig) => Judgement::Bad { clause: format!("crash/{}", sig), detail: "panic while importing this statement".into() },
+    };
+    match j {
+        Judgement::Rejected(cl) => Outcome::dont_care(format!("layout/{}", cl)),
+        Judgement::Ok { class } => Outcome::pass(format!("layout/{}/{}{}", class, c.swept, if c.cjk { "-cjk" } else { "" })),
+        Judgement::Bad { clause, detail } => Outcome::violation(format!("{}/layout:{}", clause, c.swept), detail),
+    }
+}
+
+/// All cases of the family, in a fixed order.
+fn layout_cases(thorough: bool) -> Vec<LayoutCase> {
+    let mut v = vec![];
+    // (swept, cjk, src, dst, pending)
+    let mut accounts: Vec<(&'static str, bool, String, String, bool)> = vec![];
+    for w in 1..=LAYOUT_MAX_WIDTH {
+        accounts.push(("source-account", false, ascii_account(SRC_TEMPLATE, w), DEFAULT_DST.to_string(), false));
+    }
+    for w in 1..=LAYOUT_MAX_WIDTH {
+        accounts.push(("counter-account", false, DEFAULT_SRC.to_string(), ascii_account(DST_TEMPLATE, w), false));
+    }
+    for w in 1..=LAYOUT_MAX_WIDTH {
+        accounts.push(("counter-account-pending", false, DEFAULT_SRC.to_string(), ascii_account(DST_TEMPLATE, w), true));
+    }
+    let n_ascii = accounts.len();
+    for w in CJK_PREFIX_WIDTH + 1..=LAYOUT_MAX_WIDTH {
+        accounts.push(("source-account", true, cjk_account(SRC_TEMPLATE, w), DEFAULT_DST.to_string(), false));
+    }
+    for w in CJK_PREFIX_WIDTH + 1..=LAYOUT_MAX_WIDTH {
+        accounts.push(("counter-account", true, DEFAULT_SRC.to_string(), cjk_account(DST_TEMPLATE, w), false));
+    }
+    for w in CJK_PREFIX_WIDTH + 1..=LAYOUT_MAX_WIDTH {
+        accounts.push(("counter-account-pending", true, DEFAULT_SRC.to_string(), cjk_account(DST_TEMPLATE, w), true));
+    }
+    // CSV: ASCII + CJK accounts x amounts x precision x balance
+    for (swept, cjk, src, dst, pending) in &accounts {
+        for amount in LAYOUT_CSV_AMOUNTS {
+            for pi in 0..PRECS.len() {
+                for balance in [false, true] {
+                    v.push(LayoutCase { importer: "csv", swept, cjk: *cjk, src: src.clone(), dst: dst.clone(), pending: *pending, amount, flip: false, pi, balance });
+                }
+            }
+        }
+    }
+    // Camt053 and Viseca: ASCII accounts x amounts x sign x precision (camt: with the closing balance on the last entry)
+    for (importer, amounts) in [("xml", LAYOUT_XML_AMOUNTS), ("txt", LAYOUT_VISECA_AMOUNTS)] {
+        for (swept, cjk, src, dst, pending) in &accounts[..n_ascii] {
+            for amount in amounts {
+                for flip in [false, true] {
+                    for pi in 0..PRECS.len() {
+                        v.push(LayoutCase { importer, swept, cjk: *cjk, src: src.clone(), dst: dst.clone(), pending: *pending, amount, flip, pi, balance: importer == "xml" });
+                    }
+                }
+            }
+        }
+    }
+    // thorough: the full product of both widths for CSV
+    if thorough {
+        for ws in 1..=LAYOUT_MAX_WIDTH {
+            for wd in 1..=LAYOUT_MAX_WIDTH {
+                for amount in LAYOUT_CSV_AMOUNTS {
+                    for pi in 0..PRECS.len() {
+                        v.push(LayoutCase { importer: "csv", swept: "both-accounts", cjk: false, src: ascii_account(SRC_TEMPLATE, ws), dst: ascii_account(DST_TEMPLATE, wd), pending: false, amount, flip: false, pi, balance: false });
+                    }
+                }
+            }
+        }
+    }
+    v
+}
+
 fn run(ctx: &mut Ctx) {
     let env = Env { shapes: shapes(), dir: oka::scratch_dir("c15"), memo: RefCell::new(HashMap::new()), last_config: RefCell::new(String::new()), runs: RefCell::new(0), compared: RefCell::new(0) };
     let maxdev = ctx.tier.pick(2usize, 3usize);
@@ -992,5 +1196,20 @@ fn run(ctx: &mut Ctx) {
                 }
             }
         }
+    }
+    // ---- layout-boundary family (appended, so the indices of the cases above do not move) ----
+    let layout = layout_cases(ctx.tier == crate::fw::Tier::Thorough);
+    ctx.fact("layout_cases", layout.len() as u64);
+    ctx.fact("layout_max_account_width", LAYOUT_MAX_WIDTH as u64);
+    for c in &layout {
+        if !ctx.next_is_mine() {
+            ctx.skip_cases(1);
+            continue;
+        }
+        let (r0, c0) = (*env.runs.borrow(), *env.compared.borrow());
+        ctx.case(|| layout_describe(c), || layout_outcome(&env, c));
+        let (r1, c1) = (*env.runs.borrow(), *env.compared.borrow());
+        ctx.count("states", r1 - r0);
+        ctx.count("transitions", c1 - c0);
     }
 }
